@@ -228,7 +228,7 @@ pub fn universal_bytes<const LEN: usize>() {
 
 /// Every accepted IA5 text of N ASCII bytes placed in each IA5-typed alternative name is
 /// serialised by the real SAN writer without panic, under the variant's tag, byte for byte.
-pub fn ia5_in_san<const N: usize>() {
+pub fn ia5_in_san<const N: usize>(which: u8) {
     let a: [u8; N] = kani::any();
     let s = match String::from_utf8(a.to_vec()) {
         Ok(s) => s,
@@ -238,15 +238,15 @@ pub fn ia5_in_san<const N: usize>() {
         Ok(v) => v,
         Err(_) => return,
     };
-    let which: u8 = kani::any();
-    kani::assume(which < 3);
+    // (the variant is a constant of the query: a symbolic variant makes the context tag - and with it every later length - symbolic)
     let (san, tag) = match which {
         0 => (SanType::Rfc822Name(v), 0x81u8),
         1 => (SanType::DnsName(v), 0x82),
         _ => (SanType::URI(v), 0x86),
     };
     let mut p = crate::artefact::empty_params();
-    p.subject_alt_names = vec![san];
+    let mut store = core::mem::ManuallyDrop::new([san, SanType::IpAddress(std::net::IpAddr::V4(std::net::Ipv4Addr::new(0, 0, 0, 0)))]);
+    p.subject_alt_names = crate::cert::backed_vec(&mut store, 1);
     let der = yasna::construct_der(|w| hk::write_subject_alt_names(&p, w));
     // Extension { OID 2.5.29.17, critical TRUE (empty subject), OCTET STRING { SEQ { [tag] text } } }
     let ext = read_whole(&der).unwrap();
@@ -260,4 +260,5 @@ pub fn ia5_in_san<const N: usize>() {
     assert!(name.tag == tag, "C13:san-tag");
     assert!(content_eq(&der, &name, &a), "C13:san-content");
     kani::cover!(true, "REACH");
+    core::mem::forget(p);
 }
